@@ -354,7 +354,7 @@ impl Property for C06 {
         let cfg = PartCfg {
             name: "history",
             rule: "random call histories (multi-transaction blocks, empty blocks, failed/reverted/invalid transactions, contract-created contracts, drains, reorg + regrowth); every 7 ops at a boundary and at the end all coherence invariants are recomputed over all heights. Non-trivial = some block has >= 3 transactions of which >= 1 failed and >= 1 emitted logs; evaluations are weighted by the number of transactions cross-checked (1 + txs/8)",
-            cases: ctx.tier.pick(400, 8000),
+            cases: ctx.tier.pick(1500, 16_000),
             max_shrink_iters: ctx.tier.pick(250, 1000),
         };
         explore(ctx, ev, &cfg, strategy, check)
